@@ -8,7 +8,7 @@ from .cgt import trace_family, cgt_family, law_family, report_family, calendar_f
 
 
 def c01(tier, seed):
-    return combine(fam_list(tier, ['core_q', 'edge_q', 'frac_q', 'split_q', 'split5_q', 'two_q', 'two_split_q', 'matcher_q'], ['core_t', 'split_t', 'sim_t', 'matcher_t', 'matcher_sim_t']) + [trace_family(tier, seed)], 'multi_leg_disposals',
+    return combine(fam_list(tier, ['core_q', 'edge_q', 'frac_q', 'split_q', 'split5_q', 'split2_q', 'order_q', 'two_q', 'two_split_q', 'matcher_q'], ['core_t', 'split_t', 'sim_t', 'matcher_t', 'matcher_sim_t']) + [trace_family(tier, seed)], 'multi_leg_disposals',
                    'every cell ledger of the family (TLC-enumerated) x base dates; non-trivial = ledgers with a disposal '
                    'identified by two or more legs')
 
@@ -32,7 +32,7 @@ def c05(tier, seed):
 
 
 def c06(tier, seed):
-    return combine(fam_list(tier, ['order_q', 'order_split_q', 'two_q'], ['order_t', 'two_t']) + [cli_family(tier)], ['variant_comparisons', 'partitions'],
+    return combine(fam_list(tier, ['order_q', 'order_split_q', 'two_q', 'two_fills_q', 'events_order_q'], ['order_t', 'two_t']) + [cli_family(tier)], ['variant_comparisons', 'partitions'],
                    'every cell ledger of the family rendered in canonical order and as reversed / sells-first / '
                    'actions-first / two seeded shuffles / adjacent and separated half fills / lower-case tickers; '
                    'non-trivial = implementation-vs-implementation comparisons of a variant with the canonical rendering',
@@ -40,7 +40,7 @@ def c06(tier, seed):
 
 
 def c09(tier, seed):
-    return combine(fam_list(tier, ['two_q', 'two_split_q'], ['two_t']) + laws(tier, ['project_q'], ['project_t']), ['covered', 'nontrivial'],
+    return combine(fam_list(tier, ['two_q', 'two_split_q', 'two_fills_q'], ['two_t']) + laws(tier, ['project_q'], ['project_t']), ['covered', 'nontrivial'],
                    'two-security cell ledgers (TLC checks OthersUntouched on every step); each security\'s legs, costs and '
                    'holding must equal the single-security specification outcome whatever the other security does and '
                    'wherever its lines sit; non-trivial = accepted ledgers')
@@ -51,7 +51,7 @@ def laws(tier, quick, thorough):
 
 
 def c10(tier, seed):
-    return combine(laws(tier, ['rescale_q', 'rescale_two_q', 'rescale_events_q', 'unsplit_q'], ['rescale_t', 'rescale5_t', 'unsplit_t']) + fam_list(tier, ['split_q', 'two_split_q', 'events_split_q'], ['split_t', 'events_split_t']),
+    return combine(laws(tier, ['rescale_q', 'rescale_two_q', 'rescale_events_q', 'unsplit_q'], ['rescale_t', 'rescale5_t', 'unsplit_t']) + fam_list(tier, ['split_q', 'split2_q', 'two_split_q', 'events_split_q'], ['split_t', 'events_split_t']),
                    ['nontrivial', 'with_splits'],
                    'pairs (ledger with one split at every position, same ledger rewritten in post-split units) and (ledger, '
                    'ledger + SPLIT f .. UNSPLIT f with no trade between): TLC checks the law between the two specification '
@@ -207,7 +207,7 @@ def c20(tier, seed):
 
 
 def c11(tier, seed):
-    return combine(fam_list(tier, ['events_q', 'events_cheap_q', 'events_split_q', 'matcher_events_q'], ['events_t', 'events_split_t', 'matcher_events_t', 'matcher_sim_t']) + [trace_family(tier, seed)], 'with_events',
+    return combine(fam_list(tier, ['events_q', 'events_cheap_q', 'events_split_q', 'events_order_q', 'matcher_events_q'], ['events_t', 'events_split_t', 'matcher_events_t', 'matcher_sim_t']) + [trace_family(tier, seed)], 'with_events',
                    'cell ledgers with a capital return / accumulation cell at every position; TLC judges the observed '
                    'per-lot apportionment (never on later acquisitions, sums to the net amount, nothing negative); '
                    'conservation of the amount, s122 refusal of unabsorbable returns, dividend inertness; '
